@@ -230,6 +230,12 @@ func (s *storage) SetRaw(ctx context.Context, keyValue ...*spacesyncproto.StoreK
 			keyValues[i].KeyPeerId = ""
 			continue
 		}
+		// same rule as the local path (Set): only an account that held write permission at the
+		// ACL record the value cites may have its value stored and advertised
+		if !canWriteAtRecord(state, keyValues[i]) {
+			keyValues[i].KeyPeerId = ""
+			continue
+		}
 	}
 	s.aclList.RUnlock()
 	keyValues = slice.DiscardFromSlice(keyValues, func(value innerstorage.KeyValue) bool {
@@ -251,6 +257,15 @@ func (s *storage) SetRaw(ctx context.Context, keyValue ...*spacesyncproto.StoreK
 		log.Warn("failed to index for keys", zap.Error(indexErr))
 	}
 	return nil
+}
+
+func canWriteAtRecord(state *list.AclState, kv innerstorage.KeyValue) bool {
+	identity, err := crypto.DecodeAccountAddress(kv.Identity)
+	if err != nil {
+		return false
+	}
+	perms, err := state.PermissionsAtRecord(kv.AclId, identity)
+	return err == nil && perms.CanWrite()
 }
 
 func (s *storage) GetAll(ctx context.Context, key string, get func(decryptor Decryptor, values []innerstorage.KeyValue) error) (err error) {
